@@ -19,7 +19,7 @@ func schedFeature(repo, out string, replace map[string]string) {
 	if len(schedFiles) > 0 {
 		files = schedFiles
 	}
-	skipFuncs := map[string]bool{"loop": true, "growRing": true, "newSimpleContainer": true, "newTransactionPool": true, "initTransactionPool": true}
+	skipFuncs := map[string]bool{"loop": true, "newSimpleContainer": true, "newTransactionPool": true, "initTransactionPool": true}
 	total := 0
 	for _, rel := range files {
 		// <file>#<Func>#<Func>: scheduling points only in the named functions / methods of the file
@@ -88,7 +88,10 @@ func schedFeature(repo, out string, replace map[string]string) {
 			ast.Inspect(fd.Body, func(n ast.Node) bool {
 				switch x := n.(type) {
 				case *ast.FuncLit:
-					return false // closures run under library iteration (e.g. sync.Map.Range): no yield inside
+					// closures run under library iteration (e.g. gmap iteration under its lock): no yield inside, except
+					// the age tick's sync.Map.Range callback: Range holds no lock while it calls back, and the window
+					// between the tick's read and its store is inside that callback
+					return fd.Name.Name == "growRing"
 				case *ast.BlockStmt:
 					add(x.List)
 				case *ast.CaseClause:
